@@ -4,6 +4,7 @@ import (
 	"fmt"
 	"math"
 	"math/bits"
+	"sort"
 	"strconv"
 	"strings"
 
@@ -13694,17 +13695,35 @@ func (l *Lowerer) tokenToUnaryOp(tok parser.TokenKind) ir.UnaryOperator {
 
 // checkUnusedVariables reports warnings for local variables that are declared but never used.
 func (l *Lowerer) checkUnusedVariables(funcName string) {
-	for name, span := range l.localDecls {
-		if !l.usedLocals[name] {
-			// Variables starting with _ are intentionally unused
-			if len(name) > 0 && name[0] == '_' {
-				continue
-			}
-			l.warnings = append(l.warnings, Warning{
-				Message: fmt.Sprintf("unused variable '%s' in function '%s'", name, funcName),
-				Span:    span,
-			})
+	// Collect the unused names first and report them in source order (then by
+	// name): ranging over the map directly would order the warnings by Go's
+	// randomized map iteration, differently on every call.
+	unused := make([]string, 0, len(l.localDecls))
+	for name := range l.localDecls {
+		if l.usedLocals[name] {
+			continue
 		}
+		// Variables starting with _ are intentionally unused
+		if len(name) > 0 && name[0] == '_' {
+			continue
+		}
+		unused = append(unused, name)
+	}
+	sort.Slice(unused, func(i, j int) bool {
+		a, b := l.localDecls[unused[i]].Start, l.localDecls[unused[j]].Start
+		if a.Line != b.Line {
+			return a.Line < b.Line
+		}
+		if a.Column != b.Column {
+			return a.Column < b.Column
+		}
+		return unused[i] < unused[j]
+	})
+	for _, name := range unused {
+		l.warnings = append(l.warnings, Warning{
+			Message: fmt.Sprintf("unused variable '%s' in function '%s'", name, funcName),
+			Span:    l.localDecls[name],
+		})
 	}
 }
 
